@@ -41,6 +41,7 @@ func Parse(pattern string, desc bool) *Glob {
 	}
 	n := 0
 	isGlob := false
+	escaped := false
 outer:
 	for i := 0; i < len(pattern); i++ {
 		switch pattern[i] {
@@ -50,12 +51,18 @@ outer:
 				isGlob = true
 			}
 			break outer
+		case '\\':
+			// the literal prefix ends at the first escape, because the
+			// pattern bytes from here on are not the bytes that match.
+			escaped = true
 		}
-		n++
+		if !escaped {
+			n++
+		}
 	}
 	if n == 0 {
-		g.Limits = []string{pattern, pattern}
-		g.IsGlob = false
+		// no literal prefix, so there is no range to limit the scan to.
+		g.IsGlob = isGlob
 		return g
 	}
 	var a, b string
